@@ -3,7 +3,8 @@ use crate::{
     error::{WriterError, WriterResult},
     reader::WriteXml,
 };
-use inflector::cases::{pascalcase::to_pascal_case, snakecase::to_snake_case};
+use super::structures::xml_name_to_rust_name;
+use inflector::cases::snakecase::to_snake_case;
 use roxmltree::Node;
 use std::{
     fmt::{Display, Formatter},
@@ -104,7 +105,7 @@ impl<'n> TryFromNode<'n> for Field {
 
             let xml_name = ref_node.xml_name().ok_or(WriterError::InvalidReference)?;
             let rust_type = RustFieldType::Other(OtherRustType {
-                name: to_pascal_case(xml_name),
+                name: xml_name_to_rust_name(xml_name),
                 module,
             });
 
@@ -291,7 +292,7 @@ pub fn as_rust_type(node_type: &str, doc: &RustDocument) -> RustFieldType {
         "short" => RustFieldType::I16,
         "boolean" => RustFieldType::Bool,
         v => RustFieldType::Other(OtherRustType {
-            name: to_pascal_case(v),
+            name: xml_name_to_rust_name(v),
             module: namespace.and_then(|ns| {
                 doc.find_module_name_from_namespace_reference(ns)
                     .map(ToString::to_string)
@@ -305,36 +306,62 @@ pub fn as_field_name(xml_name: &str) -> String {
     rename_keywords(&field_name).to_string()
 }
 
-/// renamed the Rust keyword and quote the field name
+/// Make a snake_case name usable as a Rust identifier: every strict or reserved keyword
+/// (edition 2024) becomes a raw identifier, except the three that cannot be raw.
 pub fn rename_keywords(field_name: &str) -> &str {
     match field_name {
-        "type" => "r#type",
+        "abstract" => "r#abstract",
         "as" => "r#as",
-        "where" => "r#where",
+        "async" => "r#async",
+        "await" => "r#await",
+        "become" => "r#become",
+        "box" => "r#box",
         "break" => "r#break",
-        "override" => "r#override",
+        "const" => "r#const",
         "continue" => "r#continue",
-        "crate" => "r#crate",
+        "do" => "r#do",
+        "dyn" => "r#dyn",
         "else" => "r#else",
         "enum" => "r#enum",
         "extern" => "r#extern",
         "false" => "r#false",
-        "true" => "r#true",
+        "final" => "r#final",
         "fn" => "r#fn",
         "for" => "r#for",
+        "gen" => "r#gen",
         "if" => "r#if",
         "impl" => "r#impl",
         "in" => "r#in",
         "let" => "r#let",
         "loop" => "r#loop",
+        "macro" => "r#macro",
         "match" => "r#match",
         "mod" => "r#mod",
         "move" => "r#move",
         "mut" => "r#mut",
+        "override" => "r#override",
+        "priv" => "r#priv",
         "pub" => "r#pub",
         "ref" => "r#ref",
         "return" => "r#return",
-        "self" => "r#self",
+        "static" => "r#static",
+        "struct" => "r#struct",
+        "trait" => "r#trait",
+        "true" => "r#true",
+        "try" => "r#try",
+        "type" => "r#type",
+        "typeof" => "r#typeof",
+        "unsafe" => "r#unsafe",
+        "unsized" => "r#unsized",
+        "use" => "r#use",
+        "virtual" => "r#virtual",
+        "where" => "r#where",
+        "while" => "r#while",
+        "yield" => "r#yield",
+        // these cannot be raw identifiers
+        "crate" => "crate_",
+        "self" => "self_",
+        "super" => "super_",
         _ => field_name,
     }
 }
